@@ -275,7 +275,8 @@ def cstrAt (b : Bytes) (off : Nat) : Option Bytes :=
   let t := (b.drop off).take Gen.fs_sfoMaxKeyLen
   if t.contains 0 then some (t.takeWhile (· != 0)) else none
 
-def sfoLoop (b : Bytes) (keyStart : Nat) (field : Bytes) : Nat → Nat → Option (Option (Nat × Nat))
+/-- the entry of `field`: (declared length, data offset, stored in the not-terminated format 0x0004) -/
+def sfoLoop (b : Bytes) (keyStart : Nat) (field : Bytes) : Nat → Nat → Option (Option (Nat × Nat × Bool))
   | 0, _ => some none
   | n + 1, i =>
     let eo := 20 + i * 16
@@ -284,7 +285,10 @@ def sfoLoop (b : Bytes) (keyStart : Nat) (field : Bytes) : Nat → Nat → Optio
       if (slice b eo 16).length != 16 then none else
       match cstrAt b ((keyStart + keyOff) % 2 ^ 32) with
       | none => none
-      | some key => if key == field then some (some (dataLen, dataOff)) else sfoLoop b keyStart field n (i + 1)
+      | some key =>
+        if key == field then
+          some (some (dataLen, dataOff, (leAt b (eo + 2) 2).getD 0 == Gen.fs_sfoFormatUTF8NotTerminated))
+        else sfoLoop b keyStart field n (i + 1)
     | _, _, _ => none
 
 /-- sfoField: none = error -/
@@ -296,12 +300,14 @@ def sfoField (b : Bytes) (field : Bytes) : Option Bytes :=
     match sfoLoop b keyStart field count 0 with
     | none => none
     | some none => none
-    | some (some (dataLen, dataOff)) =>
+    | some (some (dataLen, dataOff, notTerminated)) =>
       if dataLen > Gen.fs_sfoMaxValueLen then none      -- the declared length never drives an allocation
-      else if dataLen == 0 then some []
+      -- a not-terminated string occupies all of its declared length; the usual format ends with a NUL
+      -- that is not part of the value (io.CopyN with a count of -1 or 0 copies nothing)
       else
-        let v := slice b (dataStart + dataOff) (dataLen - 1)
-        if v.length == dataLen - 1 then some v else none
+        let n := if notTerminated then dataLen else dataLen - 1
+        let v := slice b (dataStart + dataOff) n
+        if v.length == n then some v else none
   | _, _, _ => none
 
 /-! ### the image -/
